@@ -1048,6 +1048,9 @@ var anchorNames = map[string]bool{
 }
 
 func (P *Program) isAnchor(fn *ssa.Function) bool {
+	if fn == nil {
+		return false
+	}
 	for fn.Parent() != nil {
 		fn = fn.Parent()
 	}
